@@ -15,8 +15,8 @@ git stash -q
 without=$(timeout 600 go test -vet=off -count=1 -run 'Seeded' $pkg 2>&1 | tail -3); echo "WITHOUT CHANGE: $without" >> $log
 git stash pop -q
 mv $demo /tmp/wt/$id.demo
-suite=$( (timeout 1500 go build ./... && timeout 1500 go test -vet=off -count=1 ./... ) 2>&1 | grep -v "^ok\|no test files" | tail -5); echo "SUITE(root) non-ok lines: $suite" >> $log
-stag=$( (cd staging/src/github.com/kubewharf/apiserver-runtime && timeout 1500 go build ./... && timeout 1500 go test -vet=off -count=1 ./... ) 2>&1 | grep -v "^ok\|no test files" | grep -v "ToStorageMap\|^---\|^    \|^FAIL$\|pkg/registry\|^=== " | tail -5); echo "SUITE(staging) unexpected lines: $stag" >> $log
+suite=$( (timeout 1500 go build ./... && timeout 1500 go test -vet=off -count=1 ./... ) 2>&1 | grep "^FAIL\|^--- FAIL\|^panic\|cannot\|\.go:[0-9]*:[0-9]*:" | tail -5); echo "SUITE(root) non-ok lines: $suite" >> $log
+stag=$( (cd staging/src/github.com/kubewharf/apiserver-runtime && timeout 1500 go build ./... && timeout 1500 go test -vet=off -count=1 ./... ) 2>&1 | grep "^FAIL\|^--- FAIL\|^panic" | grep -v "ToStorageMap\|^FAIL$\|pkg/registry" | tail -5); echo "SUITE(staging) unexpected lines: $stag" >> $log
 mv /tmp/wt/$id.demo $demo
 v1=bad; echo "$with" | grep -q "^FAIL\|FAIL" && v1=fails
 v2=bad; echo "$without" | grep -q "^ok" && v2=passes
